@@ -245,13 +245,16 @@ func (e *Sim) Run(ctx *core.Ctx, idx int) {
 				return simapi.NoFault
 			}
 			if lf > 0 && c.Verb == "list" && strings.HasSuffix(c.Actor, "-controller") && fr.Float64() < lf {
+				ctx.Count("sim.faults.list-rejected")
 				return simapi.Reject
 			}
 			if c.Kind == simapi.KindPod && (c.Verb == "create" || c.Verb == "delete") && fr.Float64() < pf {
 				// refused, or carried out with the answer lost (the pod exists / is gone although the call failed)
 				if fr.Intn(3) == 0 {
+					ctx.Count("sim.faults.pod-call-answer-lost")
 					return simapi.LostReply
 				}
+				ctx.Count("sim.faults.pod-call-rejected")
 				return simapi.Reject
 			}
 			if c.Kind == simapi.KindERS && (c.Verb == "create" || c.Verb == "delete") && c.Actor == "eds-controller" && fr.Float64() < rf {
